@@ -647,6 +647,13 @@ where
     let mut trace_domains = Vec::with_capacity(n_instances);
     let mut ext_trace_domains = Vec::with_capacity(n_instances);
     for &ext_db in degree_bits {
+        // Prover-supplied: a domain larger than the PCS supports does not exist (the PCS
+        // would panic building it, and `1 << ext_db` would overflow before that).
+        if ext_db > pcs.log_max_lde_height() {
+            return Err(VerificationError::InvalidProofShape(format!(
+                "degree bits {ext_db} exceed the largest domain the PCS supports"
+            )));
+        }
         let base_db = ext_db.checked_sub(config.is_zk()).ok_or_else(|| {
             VerificationError::InvalidProofShape(
                 "Extended degree bits smaller than ZK adjustment".to_string(),
